@@ -395,6 +395,35 @@ def delete_consumers(consumers):
                         "consumer with UUID %s: %s", consumer.uuid, err)
 
 
+def check_cleared_consumers(context, data, consumers, new_consumers,
+                            allocation_objects):
+    """Apply the consumer generation check to consumers the request clears
+    but that have no allocations left to remove.
+
+    replace_all() compares and increments the generation of the consumers
+    of the allocations it is given. A consumer whose allocations are being
+    cleared and that has none left (a concurrent request removed them after
+    the generation sent with this request was checked) is not among them, so
+    check it here, inside the same transaction.
+
+    :param context: The placement context.
+    :param data: A dictionary of multiple allocations by consumer uuid.
+    :param consumers: A dictionary, keyed by consumer UUID, of Consumer objects
+    :param new_consumers: the Consumer objects created for this request
+    :param allocation_objects: the Allocation objects passed to replace_all()
+    :raises: `exception.ConcurrentUpdateDetected` if such a consumer was
+             changed or removed since its generation was checked.
+    """
+    handled = set(alloc.consumer.uuid for alloc in allocation_objects)
+    handled.update(consumer.uuid for consumer in new_consumers)
+    for consumer_uuid, consumer in consumers.items():
+        if data[consumer_uuid]['allocations'] or consumer_uuid in handled:
+            continue
+        consumer.increment_generation()
+        consumer_obj.delete_consumers_if_no_allocations(
+            context, [consumer_uuid])
+
+
 def _set_allocations_for_consumer(req, schema):
     context = req.environ['placement.context']
     context.can(policies.ALLOC_UPDATE)
@@ -483,6 +512,10 @@ def _set_allocations_for_consumer(req, schema):
         data_util.update_consumers([consumer], {consumer_uuid: request_attr})
 
         alloc_obj.replace_all(ctx, allocation_objects)
+        check_cleared_consumers(
+            ctx, {consumer_uuid: {'allocations': allocation_data}},
+            {consumer_uuid: consumer},
+            [consumer] if created_new_consumer else [], allocation_objects)
         LOG.debug("Successfully wrote allocations %s", allocation_objects)
 
     def _create_allocations():
@@ -603,6 +636,8 @@ def set_allocations(req):
         data_util.update_consumers(consumers.values(), requested_attrs)
 
         alloc_obj.replace_all(ctx, allocations)
+        check_cleared_consumers(ctx, data, consumers, new_consumers_created,
+                                allocations)
         LOG.debug("Successfully wrote allocations %s", allocations)
 
     def _create_allocations():
